@@ -278,7 +278,8 @@ class Model:
         if k == "datetime":
             return ["2000-02-29T00:00:00.500Z", "1970-01-01T00:00:00Z"]
         if k == "any":
-            return [1, "s", [1, {"a": None}], {"k": "v"}, True]
+            # (integers over the whole 64-bit range, signed and unsigned, stay the integers they are)
+            return [1, 18446744073709551615, [9223372036854775808, -9223372036854775808, 9007199254740993, {"n": 12345678901234567890}], "s", [1, {"a": None}], {"k": "v"}, True]
         if k == "enum":
             return [v["value"] for v in self.definition(t)["values"]][:2]
         raise ValueError(k)
@@ -611,6 +612,12 @@ def _any_equal(a, b):
     if isinstance(a, bool) or isinstance(b, bool):
         return a is b
     if isinstance(a, (int, float)) and isinstance(b, (int, float)):
+        # integers of the 64-bit ranges (signed and unsigned) stay the integers they are; only
+        # beyond them may an integer literal come back as the nearest double (section 6)
+        if isinstance(a, int) and isinstance(b, float) and -2**63 <= a < 2**64:
+            return a == b
+        if isinstance(b, int) and isinstance(a, float) and -2**63 <= b < 2**64:
+            return a == b
         return float(a) == float(b)
     if isinstance(a, list) and isinstance(b, list):
         return len(a) == len(b) and all(_any_equal(x, y) for x, y in zip(a, b))
